@@ -61,7 +61,7 @@ func TestC03(t *testing.T) {
 	h := hx.Begin(t, "C03", "shadow")
 	cfgs := sim.AllConfigs() // MVP-1..3 cannot speculate: they run as a sanity anchor
 	rapid.Check(t, func(rt *rapid.T) {
-		p := drawProfile(rt, []gen.Profile{gen.SHADOW, gen.SHADOWSLOW}, []int{40, 60})
+		p := drawProfile(rt, []gen.Profile{gen.SHADOWSLOW, gen.SHADOW}, []int{60, 40})
 		c := gen.Program(rt, p)
 		r, ok := refRun(c)
 		if !ok {
